@@ -251,6 +251,7 @@ def build(spec, p, symbolic, hprio=None):
         "flag": bool(run.get("flag", False)),
         "rule": run.get("rule", 0),
         "max_time": val(run.get("max_time", 8), p),
+        "unit_time": run.get("unit_time", 1),
     }
     return M
 
@@ -263,4 +264,5 @@ def sim_kwargs(M):
         absence_time_list=list(M.run["abs"]),
         perform_auto_task_while_absence_time=M.run["flag"],
         max_time=M.run["max_time"],
+        unit_time=M.run.get("unit_time", 1),
     )
